@@ -55,7 +55,7 @@ PROPS["C16"] = {
     "witness_always": ["dvi_values"],
     "witness_bound": {"dvi_values": "VarRemover / Values::update: every operation sequence of length <= 5 over 17 templates (4 variables, unbalanced push/pop, page starts, rules, chars), independent position tracker before vs after"},
     "level": "proof",
-    "verus": [],
+    "verus": ["dvi_values"],
     "kani": ["dvi_codec"],
     "unverified_callers": [
         "String::from_utf8_lossy on non-UTF-8 comment/area/name bytes (lossy by design; string forms only bounded)",
